@@ -91,27 +91,32 @@ Section Reach.
   Lemma finalize_input_spec st i m :
     match finalize_inputM st i m with
     | FPanic => length (p_inputs st) <= i
-    | FErr e => exists a, nth_error (p_inputs st) i = Some a /\ is_final a = false /\ try_input st i m = TErr e
+    | FErr k e => exists a, nth_error (p_inputs st) i = Some a /\ is_final a = false /\
+                  ((get_utxo a = None /\ k = i /\ e = e_missing_utxo) \/
+                   (get_utxo a <> None /\ try_input st i m = TErr k e))
     | FOk st' =>
         exists a, nth_error (p_inputs st) i = Some a /\
           ((is_final a = true /\ st' = st) \/
            (is_final a = false /\ exists s w, try_input st i m = TOk s w /\
-              st' = with_inputs st (set_nth i (cleared a s w) (p_inputs st))))
+              st' = with_inputs st (set_nth i (cleared a s w) (p_inputs st)))) /\
+          (is_final a = false -> get_utxo a <> None)
     end.
   Proof.
     unfold finalize_input. destruct (nth_error (p_inputs st) i) as [a|] eqn:Hn.
     - destruct (is_final a) eqn:Hf.
-      + exists a. auto.
-      + destruct (try_input st i m) as [s w|e] eqn:Ht.
-        * exists a. split; auto. right. split; auto. exists s, w. auto.
-        * exists a. auto.
+      + exists a. split; auto. split; [left; auto|intros Hx; congruence].
+      + destruct (get_utxo a) as [o|] eqn:Hu.
+        * destruct (try_input st i m) as [s w|k e] eqn:Ht.
+          -- exists a. split; auto. split; [|intros _; congruence]. right. split; auto. exists s, w. auto.
+          -- exists a. split; auto. split; auto. right. split; [congruence|auto].
+        * exists a. split; auto.
     - apply nth_error_None. exact Hn.
   Qed.
 
   Lemma finalize_input_sreach st i m st' : finalize_inputM st i m = FOk st' -> sreach st st'.
   Proof.
     intros H. pose proof (finalize_input_spec st i m) as S. rewrite H in S.
-    destruct S as (a & Hn & [[_ ->]|(Hf & s & w & _ & ->)]).
+    destruct S as (a & Hn & [[_ ->]|(Hf & s & w & _ & ->)] & _).
     - apply sreach_refl.
     - eapply sreach_set; eauto using ireach_cleared.
   Qed.
@@ -121,7 +126,7 @@ Section Reach.
   Proof.
     induction idxs as [|i r IH]; intros st errs; simpl.
     - apply sreach_refl.
-    - destruct (finalize_inputM st i m) as [st'|e|] eqn:H.
+    - destruct (finalize_inputM st i m) as [st'|k e|] eqn:H.
       + eapply sreach_trans. eapply finalize_input_sreach; eauto. apply IH.
       + apply IH.
       + apply sreach_refl.
@@ -131,7 +136,7 @@ Section Reach.
   Proof.
     induction idxs as [|i r IH]; intros st; simpl.
     - apply sreach_refl.
-    - destruct (finalize_inputM st i m) as [st'|e|] eqn:H; simpl.
+    - destruct (finalize_inputM st i m) as [st'|k e|] eqn:H; simpl.
       + eapply sreach_trans. eapply finalize_input_sreach; eauto. apply IH.
       + apply sreach_refl.
       + apply sreach_refl.
